@@ -273,6 +273,9 @@ def gen_case(rng, n, bs, count_every=1.0, cascade=True):
     h = Host()
     cap = (4 * bs + 2) if bs <= 3 else (3 * bs + 40)
     target = rng.randint(0, cap)
+    # population walks: retarget about every cap/2.5 operations, FreeAll about every 3*cap operations
+    p_retarget = min(0.05, 2.5 / cap)
+    p_freeall = min(0.5, 50.0 / (3 * cap))     # conditional on a 2% slot
     recent = []       # recently allocated ids: freeing them exercises the LIFO-ish paths
     while len(lines) < n + 1:
         r = rng.random()
@@ -287,9 +290,9 @@ def gen_case(rng, n, bs, count_every=1.0, cascade=True):
                 a, b = rng.sample(h.live, 2)
                 lines.append("own %d %d" % (a, b) if (b in h.parent or h.is_anc(b, a)) else "own %d %d" % (a, a))
             continue
-        if rng.random() < 0.02:
+        if rng.random() < p_retarget:
             target = rng.choice([0, 1, bs - 1, bs, bs + 1, 2 * bs, 2 * bs + 1, rng.randint(0, cap), cap])
-        if r < 0.07 and h.live and rng.random() < 0.5:
+        if r < 0.07 and h.live and rng.random() < p_freeall:
             lines.append("freeall")
             h.clear()
             if count_every:
@@ -331,13 +334,11 @@ def exhaustive(bs, maxlen, with_own):
     """every legal history of exactly `maxlen` operations (alloc / del of any live element /
     freeall / optionally own of any legal pair), each followed by `count`; prefixes are observed
     line by line so only maximal histories are emitted.  Correspondence input, not proof."""
-    out = []
-
     def rec(prefix, live, parent, nxt, depth):
         if depth == 0:
-            out.append(["pool %d" % bs] + prefix)
+            yield ["pool %d" % bs] + prefix
             return
-        rec(prefix + ["alloc", "count"], live + (nxt,), parent, nxt + 1, depth - 1)
+        yield from rec(prefix + ["alloc", "count"], live + (nxt,), parent, nxt + 1, depth - 1)
         for p in live:
             # cascade: p and everything it owns (transitively)
             dead = {p}
@@ -347,10 +348,10 @@ def exhaustive(bs, maxlen, with_own):
                 for c, q in parent:
                     if q in dead and c not in dead:
                         dead.add(c); changed = True
-            rec(prefix + ["del %d" % p, "count"], tuple(x for x in live if x not in dead),
-                tuple((c, q) for c, q in parent if c not in dead), nxt, depth - 1)
+            yield from rec(prefix + ["del %d" % p, "count"], tuple(x for x in live if x not in dead),
+                           tuple((c, q) for c, q in parent if c not in dead), nxt, depth - 1)
         if live:
-            rec(prefix + ["freeall", "count"], (), (), nxt, depth - 1)
+            yield from rec(prefix + ["freeall", "count"], (), (), nxt, depth - 1)
         if with_own and depth > 1:
             pm = dict(parent)
             for a in live:
@@ -363,9 +364,8 @@ def exhaustive(bs, maxlen, with_own):
                             cyc = True; break
                         x = pm.get(x)
                     if not cyc:
-                        rec(prefix + ["own %d %d" % (a, b)], live, parent + ((b, a),), nxt, depth - 1)
-    rec([], (), (), 1, maxlen)
-    return out
+                        yield from rec(prefix + ["own %d %d" % (a, b)], live, parent + ((b, a),), nxt, depth - 1)
+    yield from rec([], (), (), 1, maxlen)
 
 
 def corpus_cases():
@@ -380,14 +380,18 @@ class CovDiff(Diff):
 
     def __init__(self, *a, **k):
         super().__init__(*a, **k)
-        self.cov = {"new_block": 0, "block_released": 0, "alloc_fills_block": 0, "free_from_full_block": 0,
-                    "free_empties_block": 0, "reuse_cached_block": 0, "cascade_del": 0, "freeall": 0,
-                    "freeall_with_cascade": 0, "freeall_multi_block": 0, "max_blocks": 0, "max_live": 0}
+        self.covs = {}
         self.by_bs = {}
+
+    @staticmethod
+    def fresh_cov():
+        return {"new_block": 0, "block_released": 0, "alloc_fills_block": 0, "free_from_full_block": 0,
+                "free_empties_block": 0, "reuse_cached_block": 0, "cascade_del": 0, "freeall": 0,
+                "freeall_with_cascade": 0, "freeall_multi_block": 0, "max_blocks": 0, "max_live": 0}
 
     def account(self, case, model_out):
         super().account(case, model_out)
-        cov = self.cov
+        cov = self.fresh_cov()
         bs, blocks, per, slot, owned = 0, 0, {}, {}, 0
         for l, o in zip(case, model_out):
             if o == "bad-op":
@@ -397,6 +401,7 @@ class CovDiff(Diff):
             if t[0] == "pool":
                 bs, blocks, per, slot, owned = int(t[1]), 0, {}, {}, 0
                 self.by_bs[bs] = self.by_bs.get(bs, 0) + 1
+                cov = self.covs.setdefault("bs%d" % bs, self.fresh_cov())
             elif t[0] == "alloc":
                 b, nb = int(kv["b"]), int(kv["blocks"])
                 if nb > blocks:
@@ -455,38 +460,41 @@ def check(ctx):
     quick = ctx.tier == "quick"
 
     # 1. bounded-exhaustive histories for the two small block sizes
-    exh_len, own_len = (6, 4) if quick else (8, 5)
+    exh_len, own_len = (9, 7) if quick else (12, 8)
     nexh = 0
     for bs in (2, 3):
         for (L, own) in ((exh_len, False), (own_len, True)):
-            cases = exhaustive(bs, L, own)
-            nexh += len(cases)
-            for i in range(0, len(cases), 4000):
-                bad += d.run_batch([("exh:bs%d:len%d:%s:%d" % (bs, L, "own" if own else "plain", i + j), c)
-                                    for j, c in enumerate(cases[i:i + 4000])])
+            batch = []
+            for c in exhaustive(bs, L, own):
+                batch.append(("exh:bs%d:len%d:%s:%d" % (bs, L, "own" if own else "plain", nexh), c))
+                nexh += 1
+                if len(batch) == 4000:
+                    bad += d.run_batch(batch); batch = []
+            bad += d.run_batch(batch)
     ctx.stats["exhaustive_histories"] = nexh
     ctx.stats["exhaustive_lengths"] = {"plain": exh_len, "with_own": own_len}
 
     # 2. random histories of mixed lengths, all three block sizes
-    ncases = 90 if quick else 600
+    ncases = 300 if quick else 3000
     batch = []
     for i in range(ncases):
         bs = SIZES[i % 3]
-        length = rng.choice([12, 60, 400] if bs <= 3 else [60, 700, 2500])
+        length = rng.choice([12, 60, 400] if bs <= 3 else [100, 1500, 6000])
         batch.append(("random:bs%d:%d" % (bs, i), gen_case(rng, length, bs)))
         if len(batch) == 60:
             bad += d.run_batch(batch); batch = []
     bad += d.run_batch(batch)
 
     # 3. long single histories (the property's 10^5 bound in the thorough tier)
-    longs = [(2, 20000), (3, 20000), (256, 20000)] if quick else [(2, 100000), (3, 100000), (256, 100000), (256, 100000)]
+    longs = ([(2, 30000), (3, 30000), (256, 30000)] if quick else
+             [(2, 100000), (3, 100000), (256, 100000)] * 3)
     for k, (bs, n) in enumerate(longs):
         bad += d.run_batch([("long:bs%d:%d" % (bs, k), gen_case(rng, n, bs, count_every=0.25 if bs <= 3 else 0.05))])
 
     ctx.oblige("correspondence harness/blockalloc.cpp == BlockAlloc model on %d histories" % d.cases, bad == 0,
                "%d differing cases" % bad, reported=True)
     ctx.samples = [gen_case(ctx.rng("sample"), 14, 2), gen_case(ctx.rng("sample3"), 14, 3)]
-    ctx.stats["model_branch_coverage"] = d.cov
+    ctx.stats["model_branch_coverage"] = d.covs
     ctx.stats["cases_by_blocksize"] = d.by_bs
     cov = {
         "evaluations": d.cases, "distinct_nontrivial": len(d.distinct),
